@@ -14,6 +14,33 @@ CLAIMS = {
  "C14": dict(text="Theorems for every input of the documented domains (Montgomery: congruence, |r|<q, no i64 overflow; reduce32: congruence, bound, exact fault boundary; caddq) about the checked-semantics model; the model is tied to reduce.rs by checksum sweeps (all 2^32 inputs in thorough; stratified + every 2^23 boundary in quick) in both the overflow-checked and the wrapping build.",
              note="Q and Q_INV are regenerated from src on every run and the obligation Q_INV*Q = 1 mod 2^32 is re-checked by the kernel.",
              tech="Lean 4 proof (omega over wrap/floor-div encodings) + exhaustive differential tie", ref="5/C14"),
+ "C18": dict(text="chknorm is exact: for every list of coefficients with |x| < 2^30 (superset of the reduce32 range), every position and every bound B <= (q-1)/8 the check returns 1 iff some |x| >= B, no overflow; B > (q-1)/8 always fails; vector wrappers; all bounds of the six sets are in range. Tie: 256 positions x boundary values x all bounds, expected value computed independently.",
+             note="The abs trick a - ((a>>31) & 2a) is proved from the two's-complement encoding of & on i32.",
+             tech="Lean 4 proof (list induction + omega) + enumerated differential tie", ref="5/C18"),
+ "C16": dict(text="Model, code and an independent Python BitPack/SimpleBitPack/HintBitPack agree on every codec and container of the 6 copies (extreme, random and malformed inputs). Proved so far on the faithful i32/u8 model: standard sizes; round trip of the t1 (4 coeff <-> 5 bytes) and t0 (8 coeff <-> 13 bytes) groups for all in-range coefficients without overflow. Remaining codecs (eta, z, w1, hints) are tied but their round-trip theorems are still to be added: partial.",
+             note="PARTIAL: proof covers sizes + t1/t0 groups; eta/z/w1/hint/containers rest on the differential tie against the Python encoder.",
+             tech="Lean 4 proof (bit ops -> arithmetic, omega) + differential tie with independent encoder", ref="5/C16"),
+ "C19": dict(text="Every vector operation of the model is the component-wise lift (length + per-index theorems for map/zip loops), the matrix product is row-wise accumulated in order j=0.., k_decompose returns (high, low), k_pack_w1 is the concatenation. Tie: each Rust loop of the 3 polyvec modules is compared with the polynomial-level functions of the same build on vectors with pairwise different components, and with an independent HighBits/LowBits.",
+             note="The model uses map/zip combinators, so the theorems are about those; the tie is what links each Rust loop (index ranges, transposition, accumulation start) to them.",
+             tech="Lean 4 proof (induction over the loop combinators) + differential tie", ref="5/C19"),
+ "C13": dict(text="Kernel-checked facts about the ZETAS table regenerated from ntt.rs (tree relations zeta_2k^2=zeta_k, zeta_{2k+1}^2=-zeta_k, zeta_1^2=-1, bound, F=2^64/256, generator 1753 of order 512). The end-to-end refinement theorem (ntt = evaluation, no overflow, < 9q) is not finished: partial. Tie: outputs compared with plain evaluation at 1753^(2 brv8(i)+1), bounds 9q / q, and the schoolbook negacyclic product through chained ntt -> pointwise -> invntt on the code's own outputs.",
+             note="PARTIAL: table obligations proved; the layer-by-layer refinement is future work; evaluation/product correctness currently rests on the tie against the mathematical definition.",
+             tech="Lean 4 proof (decide +kernel on generated tables) + differential tie against naive evaluation", ref="5/C13"),
+ "C17": dict(text="Acceptance maps and ranges of the rejection routines (23-bit candidate < 2^23, eta=2 map t-(205t>>10)*5 = t mod 5 in [-2,2], eta=4 in [-4,4]), block counts and nonce layouts proved. Tie: every sampler and vector sampler of the 6/3 copies compared with an independent Python RejNTTPoly/RejBoundedPoly/ExpandMask/SampleInBall over hashlib SHAKE, crafted buffers for the byte-level routines, eta refill path counted.",
+             note="PARTIAL: the filter-form theorem for arbitrary buffers is still to be added; refill of uniform/challenge is modelled, not exercised (no XOF hook).",
+             tech="Lean 4 proof (omega/decide) + differential tie with independent samplers", ref="5/C17"),
+ "C12": dict(text="SHAKE model = code = hashlib on every input length 0..3*rate+1, input/output 2-splits, long squeezes, mixed squeezeblocks, absorb_once, stream inits and the permutation on random states. A genuine defect (squeeze index reset per block) was reported by this check and fixed. Sponge split theorems are still to be added: partial.",
+             note="PARTIAL: currently rates/table obligations only; call-pattern independence rests on the tie (model and hashlib).",
+             tech="Lean 4 (table obligations) + differential tie with hashlib as independent oracle", ref="5/C12"),
+ "C04": dict(text="The Lean KeyGen model is validated on every run against OpenSSL 3.5.5 ML-DSA-44/65/87 vectors (60) and the NIST Dilithium vectors in the repo's tests, and the code must equal the model byte for byte on KAT, edge and random seeds, seeded and unseeded (RNG tap), raw and API entry points, wrong seed lengths refused. Proved: seeded generation draws nothing and refuses other lengths; unseeded = seeded on the next 32 tape bytes. A genuine defect (ML-DSA-65/87 seed domain separation) was reported by this check and fixed.",
+             note="PARTIAL: the algebraic relation t1*2^13+t0 = A s1 + s2 is not yet a theorem; it is implied for the tied inputs by agreement with the KAT-anchored model.",
+             tech="Lean 4 proof (structural) + KAT-anchored differential tie", ref="5/C04"),
+ "C11": dict(text="Container identities proved: from_bytes accepts exactly length N and stores the bytes unchanged, any other length is refused, Keypair bytes = sk || pk and parsing splits exactly there, standard lengths. Tie: 18 containers at lengths N, N+-1, 0, 1, sizes of other containers; signing through a container = signing with the bytes.",
+             note="Refusal = the Rust expect() panic observed under catch_unwind.",
+             tech="Lean 4 proof + differential tie", ref="5/C11"),
+ "C07": dict(text="Proved: framing = FIPS 204 M' (absent ctx = empty), OIDs = DER of id-sha256/512 and equal to every copy's constants, ctx > 255 gives none/false without drawing randomness, framing injective (pure, pre-hash, across modes), and acceptance of one signature for two different representatives yields an explicit SHAKE-256 collision (mu-level or c~-level). Tie: API signature = raw signature of the independently built M' for ctx lengths none/0/1/2/254/255/256/257/1000 and 3 modes; all ordered framing pairs verify/reject as required, incl. same ctx||M with a different split.",
+             note="'never verifies under another framing' is proved in the only form possible without a hardness assumption: as the construction of a collision.",
+             tech="Lean 4 proof + multi-stage differential tie", ref="5/C07"),
  "C15": dict(text="Theorems for all a in [0,q) and all (w1,a0): power2round/decompose contracts for both gamma2, equality with FIPS 204 Alg. 35/36/40, UseHint(MakeHint)=w1 on |a0|<2*gamma2, make_hint = spec MakeHint. Tie: exhaustive sweep of [0,q) for every copy (lvl2/3/5) and of every (w1,a0) pair, both builds.",
              note="Magic constants 11275/1025/shift amounts are in the hand-written model; the exhaustive sweep ties them to the code.",
              tech="Lean 4 proof (omega, case split on the rounding quotient) + exhaustive differential tie", ref="5/C15"),
